@@ -13,7 +13,7 @@ import struct
 
 from . import cfg as cfgmod
 from .core import Repo, U, body_walk, call_name, dotted, last_attr, try_const
-from .effects import CLASS_HOME, RECEIVERS
+from .effects import CLASS_HOME, RECEIVERS, call_writes_for
 from .linear import GuardAnalysis, Lin
 
 # --------------------------------------------------------------------------- class hierarchy
@@ -287,6 +287,11 @@ class EscapeAnalysis:
                 r, c = RECEIVERS[key]
                 m = self._find_method(r, c, f.attr)
                 return m or None
+            # method name defined by exactly one class of the caller's own module
+            tree = self.repo.tree(rel)
+            owners = [c for c in tree.body if isinstance(c, ast.ClassDef) and any(isinstance(m, ast.FunctionDef) and m.name == f.attr for m in c.body)]
+            if len(owners) == 1 and f.attr not in SILENT_CALLS and not f.attr.startswith("__"):
+                return self._find_method(rel, owners[0].name, f.attr) or None
         return None
 
     def property_getters(self, node, func):
@@ -302,7 +307,10 @@ class EscapeAnalysis:
     def facts_at(self, func, node):
         if id(func) not in self._ga:
             try:
-                self._ga[id(func)] = GuardAnalysis(func, env=self.repo.consts)
+                cls = self.class_of(func)
+                rel = getattr(func, "_file", "")
+                cw = call_writes_for(self.repo, rel, cls) if cls else None
+                self._ga[id(func)] = GuardAnalysis(func, env=self.repo.consts, call_writes=cw)
             except Exception:  # noqa: BLE001
                 self._ga[id(func)] = None
         ga = self._ga[id(func)]
@@ -344,6 +352,11 @@ class EscapeAnalysis:
                 out.add(("KeyError", f"{U(n)[:60]}"))
             else:
                 # non-constant index/key
+                from .linear import lin as _lin
+                il = _lin(n.slice, self.repo.consts)
+                ll = len_lin(base, facts)
+                if il is not None and ll is not None and facts is not None and facts.entails(ll - il - Lin(1)):
+                    return out
                 bt = U(base)
                 if bt.isupper() or bt.split(".")[-1].isupper():
                     out.add(("KeyError", f"{U(n)[:60]}"))
